@@ -452,4 +452,4 @@ KNOWN_PREDICATES = {}
 
 # coverage-guided second driver (atheris / libFuzzer through Hypothesis' fuzz_one_input) for the core clauses: (clause, quick runs, thorough runs)
 from harness.covfuzz import cov_clauses  # noqa: E402
-CLAUSES += cov_clauses('C13', CLAUSES, [('for_language', 1000, 20000), ('unary', 1000, 20000)])
+CLAUSES += cov_clauses('C13', CLAUSES, [('for_language', 1000, 6666), ('unary', 1000, 6666)])
